@@ -11,7 +11,7 @@ import (
 	"verif/engine/interp"
 )
 
-func writeEvidence(prop, tier string, results []*harnessResult, violations int, knownSeen map[string]bool, wall float64, inconclusive bool) {
+func writeEvidence(prop, tier string, results []*harnessResult, violations int, knownSeen map[string]bool, wall float64, inconclusive bool, cross *crossResult) {
 	var states, transitions, traces, queries, sat, unsat, unknown, steps int64
 	var solverTime float64
 	var samples []any
@@ -120,6 +120,7 @@ func writeEvidence(prop, tier string, results []*harnessResult, violations int, 
 			"instructions_interpreted":      steps,
 			"queries":                       map[string]any{"total": queries, "sat": sat, "unsat": unsat, "unknown": unknown},
 			"solver_time_s":                 round2(solverTime),
+			"cross_solver_check":            map[string]any{"note": "a sample of the queries answered unsat by z3 4.8.12 during the run, written as stand-alone QF_BV scripts and decided again by z3 5.1.0 (z3-new) and cvc5 1.0", "scripts": cross.Scripts, "answered_unsat": cross.Agree, "undecided": cross.Undecided, "disagreements": cross.Disagree},
 			"outside_claim":                 outside,
 			"known_findings_seen":           known,
 			"inconclusive":                  inconclusive,
